@@ -26,8 +26,10 @@ def sh(cmd, cwd=None, env=None, timeout=1800):
 
 def main():
     prop, i = sys.argv[1], sys.argv[2]
-    src = "/tmp/seed-out/%s" % prop
-    wt = "/tmp/wt-%s" % prop
+    rnd = os.environ.get("SEED_ROUND", "1")
+    src = ("/tmp/seed-out/%s" if rnd == "1" else "/tmp/seed2/%s") % prop
+    wt = ("/tmp/wt-%s" if rnd == "1" else "/tmp/w2-%s") % prop
+    sid = "%s-%s" % (prop, i) if rnd == "1" else "%s-r%s-%s" % (prop, rnd, i)
     patch = os.path.join(src, "change%s.diff" % i)
     demo_rs = os.path.join(src, "demo%s.rs" % i)
     demo_sh = os.path.join(src, "demo%s.sh" % i)
@@ -50,12 +52,12 @@ def main():
         return rc2 == 0, out[-600:]
 
     checks_only = "--checks-only" in sys.argv
-    d_existing = os.path.join(VERIF, "seeded", "%s-%s" % (prop, i), "meta.json")
+    d_existing = os.path.join(VERIF, "seeded", sid, "meta.json")
     if checks_only and os.path.exists(d_existing):
         with open(d_existing) as f:
             meta = json.load(f)
         confirmed = meta.get("confirmed", False)
-        return_checks(prop, i, patch, meta, confirmed, src, demo_rs, demo_sh)
+        return_checks(prop, i, patch, meta, confirmed, src, demo_rs, demo_sh, sid)
         return
     reset()
     ok0, out0 = run_demo()
@@ -74,10 +76,10 @@ def main():
     confirmed = ok0 and suite_ok and (not ok1)
     meta["confirmed"] = confirmed
     print("%s-%s confirmed=%s (demo clean: %s, suite with change: %s, demo with change: %s)" % (prop, i, confirmed, ok0, suite_ok, ok1))
-    return_checks(prop, i, patch, meta, confirmed, src, demo_rs, demo_sh)
+    return_checks(prop, i, patch, meta, confirmed, src, demo_rs, demo_sh, sid)
 
 
-def return_checks(prop, i, patch, meta, confirmed, src, demo_rs, demo_sh):
+def return_checks(prop, i, patch, meta, confirmed, src, demo_rs, demo_sh, sid):
     # run the checks against /repo with the patch
     rc, out = sh("git -C /repo status --porcelain")
     if out.strip():
@@ -89,7 +91,7 @@ def return_checks(prop, i, patch, meta, confirmed, src, demo_rs, demo_sh):
         with open(os.path.join(VERIF, "MANIFEST.json")) as f:
             checks = [c["property_id"] for c in json.load(f)["checks"]]
         for c in checks:
-            rc, out = sh("./check %s --tier quick" % c, cwd=VERIF)
+            rc, out = sh("VERIF_EVIDENCE_DIR=/tmp/seed-evidence ./check %s --tier quick" % c, cwd=VERIF)
             if rc != 0:
                 lines = [l for l in out.splitlines() if l.startswith("    site:") or ("[" + c) in l]
                 fired[c] = [l.strip()[:300] for l in lines][:6]
@@ -102,7 +104,7 @@ def return_checks(prop, i, patch, meta, confirmed, src, demo_rs, demo_sh):
         for l in v[:2]:
             print("      ", k, l[:220])
     if confirmed or "--keep-anyway" in sys.argv:
-        d = os.path.join(VERIF, "seeded", "%s-%s" % (prop, i))
+        d = os.path.join(VERIF, "seeded", sid)
         os.makedirs(d, exist_ok=True)
         shutil.copy(patch, os.path.join(d, "patch.diff"))
         for f in (demo_rs, demo_sh):
